@@ -1209,13 +1209,16 @@ class Circuit(Unitary, StateVectorMap, Collection[Operation]):
             op = Operation(CircuitGate(circuit, move), location, circuit.params)
             return self.append(op)
 
-        cycle_index = -1
+        cycle_index = None
 
         for op in circuit:
             mapped_location = [location[q] for q in op.location]
             ci = self.append(Operation(op.gate, mapped_location, op.params))
             if cycle_index is None:
                 cycle_index = ci
+
+        if cycle_index is None:
+            return -1
 
         return cycle_index
 
